@@ -2,7 +2,9 @@
 
 Model: lean/Ladybug/Model/Psychro.lean (generic over Transc; Float executed by drv_c09, R proved about);
 theorems: lean/Ladybug/Props/C09.lean; helper lemmas: lean/Ladybug/Proofs/C09Lemmas.lean.
-Tie: correspondence only (C) — the Float instantiation of every function of psychrometrics.py and of the
+Tie: translator (T) — tools/extract/psychro_formulas.py regenerates Gen/PsychroFormulas.lean from the Python source on
+every run and Proofs/C09Gen.lean proves every generated definition equal to the model definition (16 whole functions,
+14 solver pieces, 4 user formulas); plus correspondence (C) — the Float instantiation of every function of psychrometrics.py and of the
 design-day / psych-chart users is compared with the real functions (tolerance 1e-12 relative for closed
 forms, 1e-9 for the iterative solvers; same libm, so in practice bit-exact).
 
@@ -16,8 +18,9 @@ import struct
 from harness import core
 
 PROP = 'C09'
-PROOF_MODULES = ['Ladybug.Props.C09']
+PROOF_MODULES = ['Ladybug.Props.C09', 'Ladybug.Proofs.C09Gen']
 GREP_MODULES = ['Ladybug.Transc', 'Ladybug.RealInst', 'Ladybug.Model.Psychro', 'Ladybug.Proofs.C09Lemmas',
+                'Ladybug.Gen.PsychroFormulas',
                 'Ladybug.Drv.C09', 'Ladybug.DrvCore']
 RULE = ('correspondence: every function of psychrometrics.py + HumidityCondition.dew_point/hourly profile + '
         'chart plot_point/data_points on states db x rh x pressure (x reference temperature), boundary-biased '
@@ -25,7 +28,18 @@ RULE = ('correspondence: every function of psychrometrics.py + HumidityCondition
         'inputs (negative/over-100 rh, p_w > P, T < 0 K, inf/nan); a case is non-trivial when the implementation '
         'returns a finite value; distinct = distinct (op, argument bits). oracle: the relations of the statement '
         'evaluated on the real functions only')
+EXTRACTORS = 'tools/extract/psychro_formulas.py'
 TRUSTED_BASE = [
+    'translator tools/extract/pyexpr2lean.py + psychro_formulas.py (Python ast -> Lean for straight-line numeric '
+    'code): that the emitted Lean expression denotes the Python expression (operator order, literals copied with '
+    'their decimal text, `a > b` as `b < a`, min(a, b) as `if b < a then b else a`, ints as exact floats); every '
+    'generated definition is proved equal to the model definition (C09_gen_eq_*), and the model is executed '
+    'against the real functions in the correspondence step, so a translator error shows up as a disagreement',
+    'hand-modelled, correspondence only (loops / try are outside the translated subset): the control structure of '
+    'dew_point_from_db_rh (try/except + Newton while loop), wet_bulb_from_db_rh (bisection while loop), '
+    'dew_point_from_db_rh_fast (try/except), wet_bulb_from_db_rh_fast (while loop with integer sign bookkeeping), '
+    'HumidityCondition.dew_point / hourly_dew_point_values, PsychrometricChart.plot_point / data_points; their '
+    'straight-line pieces (prefix, loop body, loop / break tests, iteration limits, final expression) ARE translated',
     'IEEE-754/libm evaluation vs the real-number semantics of the theorems is not proved; the Float '
     'instantiation of the same polymorphic definitions is compared with CPython (same libm) on every run',
     'Python exceptions of the formulas (division by t_kelvin = 0, math.log of a non-positive number, overflow) '
@@ -39,7 +53,8 @@ TRUSTED_BASE = [
 ]
 ASSUMPTIONS = ['meteorological range: dry bulb -40..55 C, rh 0..100 %, pressure 60..105 kPa',
                'independent Magnus-type reference: Alduchov-Eskridge 1996 over water, over ice (WMO form)']
-LEVEL_TEXT = ('Lean 4 theorems over R about one polymorphic transcription of psychrometrics.py: saturation '
+LEVEL_TEXT = ('Lean 4 theorems over R about one polymorphic model of psychrometrics.py, proved equal (C09_gen_eq_*, '
+              'for every numeric type) to the definitions a translator regenerates from the source on every run: saturation '
               'pressure positive and strictly increasing on each branch, _d_ln_p_ws is the derivative of '
               'log(saturated_vapor_pressure) on each branch, humidity ratio <-> rh inverse up to the proved '
               '7.4e-5 constant mismatch, enthalpy <-> dry bulb / rh exact inverses, humidity ratio and enthalpy '
@@ -50,7 +65,8 @@ LEVEL_TEXT = ('Lean 4 theorems over R about one polymorphic transcription of psy
 LEVEL_NOTE = ('partial: solver accuracy, monotonicity of dew point / wet bulb in rh, svp monotone across 273.15 K, '
               'continuity at 0 C and Magnus closeness are sampled sub-claims; float-vs-real gap trusted')
 TECHNIQUE = ('Lean 4 proof over R (HasDerivAt, field_simp/nlinarith, induction on the bisection fuel) about a '
-             'generic numeric model executed at Float and compared with the code')
+             'generic numeric model that is proved equal (rfl) to definitions regenerated from the Python source '
+             'on every run, executed at Float and compared with the code')
 
 SOLVER_TOL = 0.1            # "0.1 is degree C tolerance" in both solvers
 HR_RH_BOUND = 7.4e-5        # theorem C09_hr_rh_inverse
@@ -61,6 +77,11 @@ ANTOINE_TOL = 0.15          # db_temp_from_rh_hr has no stated tolerance; 0.15 C
 
 # ---------------------------------------------------------------------------------------------
 # float plumbing
+
+
+def extract(ctx):
+    from tools.extract import psychro_formulas
+    ctx.psychro_gen = psychro_formulas.extract()
 
 
 def _fbits(x):
